@@ -12,7 +12,7 @@ use syn::{
 use crate::{
     bound::{Bound, Bounds, WhereClauseBuilder},
     common::BinaryOp,
-    syn_utils::expand_self,
+    syn_utils::{expand_self, ref_target},
 };
 
 use self::compare_op::{
@@ -198,7 +198,7 @@ fn build_binary_op(
         let use_bounds = e.push_bounds_to(&mut wcb);
         let mut values = Vec::new();
         for field in fields {
-            let field_ty = &field.field.ty;
+            let field_ty = &ref_target(&field.field.ty);
             let lhs = with_ref(&member(quote!(self), field), lhs_is_ref);
             let rhs = with_ref(&member(quote!(rhs), field), rhs_is_ref);
             let lhs_ty = with_ref(field_ty, lhs_is_ref);
@@ -252,7 +252,7 @@ fn build_assign_op(
         let use_bounds = e.push_bounds_to(&mut wcb);
         let mut exprs = Vec::new();
         for field in fields {
-            let field_ty = &field.field.ty;
+            let field_ty = &ref_target(&field.field.ty);
             let lhs = member(quote!(self), field);
             let rhs = with_ref(&member(quote!(rhs), field), rhs_is_ref);
             let rhs_ty = with_ref(field_ty, rhs_is_ref);
@@ -299,7 +299,7 @@ fn build_unary_op(
         let use_bounds = e.push_bounds_to(&mut wcb);
         let mut values = Vec::new();
         for field in fields {
-            let field_ty = &field.field.ty;
+            let field_ty = &ref_target(&field.field.ty);
             let lhs = with_ref(&member(quote!(self), field), lhs_is_ref);
             let lhs_ty = with_ref(field_ty, lhs_is_ref);
             values.push(quote!(<#lhs_ty as #trait_>::#func_name(#lhs)));
@@ -343,7 +343,7 @@ fn build_clone_for_struct(
     let mut ctor_args = Vec::new();
     let mut clone_from_exprs = Vec::new();
     for field in fields {
-        let field_ty = &field.field.ty;
+        let field_ty = &ref_target(&field.field.ty);
         let lhs = &member(quote!(self), field);
         let rhs = &member(quote!(source), field);
         ctor_args.push(quote!(<#field_ty as #trait_>::clone(&#lhs)));
@@ -389,7 +389,7 @@ fn build_clone_for_enum(
             .hattrs
             .push_bounds_to_raw(use_bounds, false, kind, &mut wcb);
         for field in &variant.fields {
-            let field_ty = &field.field.ty;
+            let field_ty = &ref_target(&field.field.ty);
             let lhs = field.make_ident("l");
             let rhs = field.make_ident("r");
             pat_args_l.push(quote!(#lhs));
@@ -717,14 +717,14 @@ fn build_default_ctor_args(
     let trait_ = kind.to_path();
     let mut ctor_args = Vec::new();
     for field in fields {
-        let value = field.hattrs.default_value(&field.field.ty);
+        let value = field.hattrs.default_value(&ref_target(&field.field.ty));
         if field.hattrs.push_bounds_to(use_bounds, kind, wcb) && value.is_none() {
             wcb.push_bounds_for_field(field.field)
         }
         let value = if let Some(value) = value {
             value
         } else {
-            let field_ty = &field.field.ty;
+            let field_ty = &ref_target(&field.field.ty);
             quote!(<#field_ty as #trait_>::default())
         };
         ctor_args.push(value);
@@ -753,7 +753,7 @@ fn build_deref_for_struct(
             kind
         );
     }
-    let target_ty = &fields[0].field.ty;
+    let target_ty = &ref_target(&fields[0].field.ty);
     let member = fields[0].member();
 
     let content = match kind {
